@@ -133,8 +133,12 @@ class SubCheck(object):
 class KnownFindings(object):
     def __init__(self, prop):
         self.entries = []
-        if os.path.exists(KNOWN_FILE):
-            with open(KNOWN_FILE) as fh:
+        import glob
+        files = [KNOWN_FILE] + sorted(glob.glob(os.path.join(VERIF_DIR, "known_findings.d", "*.json")))
+        for fn in files:
+            if not os.path.exists(fn):
+                continue
+            with open(fn) as fh:
                 data = json.load(fh)
             for e in data.get("findings", []):
                 if e.get("property") == prop:
@@ -416,6 +420,8 @@ def _run_machine(sub, ctx, n_examples, seed_int):
 def machine_guard(ctx, history, fn):
     """Run one machine step `fn()`; classify exceptions like Ctx.run_case and remember the failing history."""
     st = ctx._machine_state
+    if st["t0"] is not None and time.time() - st["t0"] > ctx._machine_budget:
+        return None  # shrink budget used up: stop making progress, keep the best history so far
     try:
         return fn()
     except Violation as v:
